@@ -43,10 +43,18 @@ CHECKS = {
         "number spellings with '.', 'e', 'E' (ParseFloat/big.Rat) are outside and NOT decided.",
    design="4 C18", technique="symbolic execution of go/ssa + SMT, differential against abstract-value equality"),
  "C03": dict(
-   text="Kernel claim so far: bounded symbolic model checking of validate.Int (Min/Max/flags/MultipleOf/value all fully symbolic, against an independently formulated "
-        "reference), Array.ValidateLength, Object.ValidateProperties, String length (code points, multi-byte UTF-8), UniqueItems; the required-member bitmask kernel is in C09. "
-        "The generated Decode/Validate layer is not yet covered by this check (see DESIGN.md); floats and pattern are outside.",
-   design="4 C03", technique="symbolic execution of go/ssa + SMT over fully symbolic validator parameters"),
+   text="Bounded symbolic model checking of (a) the validate.* kernels with fully symbolic parameters (validate.Int incl. multipleOf against an independently formulated reference; "
+        "count validators; String length in code points; UniqueItems) and (b) the Decode + Validate code GENERATED in this run for a matrix of 15 named schemas (integer bounds incl. "
+        "exclusive/negative, multipleOf, enums, string length, arrays with min/max/uniqueItems and item validation, objects with required/optional/nullable members, "
+        "additionalProperties:false, nesting, 10- and 18-member objects for the multi-byte required mask): schema-directed JSON texts (valid instances and single-keyword mutants) with "
+        "symbolic leaves are accepted exactly when a reference validator over the abstract value says valid. One defect (absent optional array with minItems) is carried as a known finding. "
+        "Floats, pattern, allOf/oneOf and recursion are outside.",
+   design="4 C03", technique="symbolic execution of go/ssa (runtime kernels and generated code) + SMT, differential against a reference validator"),
+ "C04": dict(
+   text="Bounded symbolic model checking of the Encode/Decode code GENERATED in this run for the C03 schema matrix: every accepted instance (symbolic leaves) is re-encoded; the "
+        "encoding must be accepted again, decode(encode(v)) must re-encode to the same bytes, and the encoding must denote the same JSON value as the decoded text (so absent/null/"
+        "present states and array contents are preserved). Values are reached by decoding, equality is observed through encodings and json.Equal; floats, sums, recursion outside.",
+   design="4 C04", technique="symbolic execution of generated Go (go/ssa) + SMT, round-trip assertions over symbolic JSON leaves"),
  "C09": dict(
    text="Bounded symbolic model checking of (a) internal/bitset.Set/Build and ir.JSONFields.RequiredMask (one step from an arbitrary state; byte boundaries to 20/33 members), "
         "(b) the security gate GENERATED in this run from /repo's templates: every requirement structure over 2 schemes, 12 seeded (thorough: all 255) over 3 schemes, global security "
